@@ -20,6 +20,9 @@ def main():
 		with cf.ThreadPoolExecutor(16) as ex:
 			for prop, (rc, out) in zip(props, ex.map(lambda q: run_check(q, tree, os.path.join(base, 'ev_' + q)), props)):
 				lines = [l for l in out.split('\n') if ('[C' in l and ']' in l and ': ' in l and not l.startswith(' ')) or l.startswith('ANALYSIS-ERROR')]
+				for l in out.split('\n'):
+					if 'not evaluated' in l:
+						print(f'   ({prop}) {l.strip()[:200]}')
 				if rc != 0:
 					fired.append(prop)
 					print(f'== {prop} rc={rc}')
